@@ -61,6 +61,10 @@ func runC04(c *core.Ctx) {
 	c.Floor("sort calls inside encoders of the scope", nSorts, 8)
 	nProd := checkEncoderLoopsProductive(c, "C04.count-matches-elements", encoders)
 	c.Floor("collecting/emitting loops inside encoders of the scope", nProd, 20)
+	nPairs := checkCountNamesCollection(c, "C04.count-matches-elements", encoders)
+	c.Floor("count-prefix/loop pairs inside encoders of the scope", nPairs, 5)
+	nRem := checkRemainingBytesBounds(c, "C04.bound-accepts-encoder-output", decoders)
+	c.Floor("remaining-bytes bounds on wire counts in decoders of the scope", nRem, 2)
 	nMakes, nWire := checkWireAllocs(c, "C04.bounded-alloc", decoders)
 	c.Note("decoders examined: %d functions, %d make() sites, %d sized by a wire integer", len(decoders), nMakes, nWire)
 	c.Floor("decoder functions in scope", len(decoders), 80)
